@@ -24,6 +24,7 @@ from typing import Dict, List, TYPE_CHECKING
 from deep.api.tracepoint.tracepoint_config import MetricDefinition
 
 from deep.api.tracepoint.trigger import build_trigger
+from deep.task import IllegalStateException
 
 if TYPE_CHECKING:
     from deep.api.tracepoint.trigger import Trigger
@@ -109,8 +110,17 @@ class TracepointConfigService:
     def __trigger_update(self, old_hash, old_config):
         ts = self._last_update
         if self._task_handler is not None:
-            future = self._task_handler.submit_task(self.update_listeners, self._last_update, old_hash,
-                                                    self._current_hash, old_config, self._tracepoint_config)
+            try:
+                future = self._task_handler.submit_task(self.update_listeners, self._last_update, old_hash,
+                                                        self._current_hash, old_config, self._tracepoint_config)
+            except IllegalStateException:
+                # the agent is shut down (or is shutting down) and takes no more tasks. What we have recorded - a
+                # tracepoint registered or removed in code, a config and its hash from a last poll - must reach the
+                # listeners all the same: after the next start nothing would deliver it, the handler would go on with
+                # the older config (and a registration that got no handle would become active with the next update)
+                self.update_listeners(self._last_update, old_hash, self._current_hash, old_config,
+                                      self._tracepoint_config)
+                return
             future.add_done_callback(lambda _: logging.debug("Completed processing new config %s", ts))
 
     def set_task_handler(self, task_handler):
